@@ -23,7 +23,7 @@ PROPS = {
              'the mechanism model PruneSafe (every key of every retained state reads its value) holds exhaustively for '
              'linear histories of the repaired code, with reorganisations every violation is shown to belong to one known class, '
              'and TLC produces the counterexamples for the code as found and for that class. TLC-generated commit/reorg/prune/reopen histories (heights in the first-, second- and '
-             'third-level bands) are replayed into the real mavl store module on LevelDB, reading every key at every retained '
+             'third-level bands), plus the exhaustive directed family of flip-flop reorganisations at one height, are replayed into the real mavl store module on LevelDB, reading every key at every retained '
              'root after every step and comparing the mechanism model\'s predicted database shape; seeded random recordings '
              'on 12-key trees are validated against the trace specification.',
         note='TLC bounds: 2-3 keys x 2 values, 5-10 steps, prune interval 1-3; trees of the mechanism model need no AVL '
@@ -214,6 +214,20 @@ def run(ctx):
         ctx.write_cfg(stage, 'Prune_Gen_small.cfg', _cfg(gen, Heights='MCHeightsSmall12', MaxSteps=12))
         bs = ctx.tlc_sim('Prune_MC', 'Prune_Gen_small.cfg', num=n, depth=13, stage=stage, seed=ctx.seed * 10 + 7, timeout=3600)
         preplay(ctx, b, bs, dict(view='ref', db='leveldb', ph=2, api='set', salt=1), procs=4, label='gen-small')
+
+    # ---- 4b. directed exhaustive family: flip-flop reorganisations at one height (A, B, A again with identical
+    # ---- content, i.e. the root record of A already exists when it is committed again), then growth + pruning
+    ff = ctx.tlc_genall('Prune_FF', 'Prune_FF.cfg', stage=stage, timeout=7200, workers=2)
+
+    def live_below(x):   # the base writes >= 2 keys; B writes a key that A does not write and that the base holds
+        st = x['steps']
+        return (sum(1 for v in st[0]['ws'] if v) >= 2 and
+                any(st[2]['ws'][k] and not st[1]['ws'][k] and st[0]['ws'][k] for k in range(len(st[0]['ws']))))
+    sel = [x for x in ff if live_below(x)]
+    rest = [x for x in ff if not live_below(x)]
+    ffb = (sel[ctx.seed % 8::8] + rest[ctx.seed % 32::32]) if q else ff
+    ctx.extra['flipflop_family'] = dict(cfg='Prune_FF.cfg', complete_behaviours=len(ff), replayed=len(ffb))
+    preplay(ctx, b, ffb, dict(view='ref', db='leveldb', ph=2, api='set'), procs=4, label='flip-flop')
 
     # memdb leg: linear histories whose first commit writes >= 2 keys (see memdbProbe in the driver; a re-commit
     # at a used height also panics on memdb: its cleanup batch ends with the delete of an absent index key)
